@@ -23,6 +23,8 @@ from glue.core.subset import (AndState, CategoricalMultiRangeSubsetState, Catego
 
 from glue.core.decorators import clear_cache
 
+from glue.viewers.image.pixel_selection_subset_state import PixelSubsetState
+
 from vf.common import SPECIAL, affine_matrix, same_array
 
 OPS = {"gt": operator.gt, "ge": operator.ge, "lt": operator.lt, "le": operator.le, "eq": operator.eq, "ne": operator.ne}
@@ -38,7 +40,7 @@ FAMILY = {
     "ElementSubsetState": "memoized_leaf", "CategoricalROISubsetState": "memoized_leaf",
     "CategoricalROISubsetState2D": "memoized_leaf", "CategoricalMultiRangeSubsetState": "memoized_leaf",
     "RangeSubsetState": "plain_leaf", "MultiRangeSubsetState": "plain_leaf", "RoiSubsetState": "plain_leaf",
-    "MaskSubsetState": "plain_leaf", "SliceSubsetState": "plain_leaf",
+    "MaskSubsetState": "plain_leaf", "SliceSubsetState": "plain_leaf", "PixelSubsetState": "plain_leaf",
     "FloodFillSubsetState": "floodfill",
 }
 
@@ -253,6 +255,8 @@ def build_state(desc, datas):
         return MaskSubsetState(np.array(desc[1], dtype=bool).reshape(desc[2]), datas[desc[3]].pixel_component_ids)
     if k == "slice":
         return SliceSubsetState(datas[desc[1]], [_to_slice(s) for s in desc[2]])
+    if k == "pixslice":
+        return PixelSubsetState(datas[desc[1]], [_to_slice(s) for s in desc[2]])
     if k == "flood":
         return FloodFillSubsetState(datas[desc[1]], resolve(desc[2], datas), tuple(desc[3]), desc[4])
     if k in BINOPS:
@@ -310,6 +314,8 @@ def snapshot(state, rm):
         return ["mask", m.ravel().tolist(), list(m.shape), owner]
     if t is SliceSubsetState:
         return ["slice", rm.data_by_id[id(state.reference_data)], [_snap_slice(s) for s in state.slices]]
+    if t is PixelSubsetState:
+        return ["pixslice", rm.data_by_id[id(state.reference_data)], [_snap_slice(s) for s in state.slices]]
     if t in BINNAME:
         return [BINNAME[t], snapshot(state.state1, rm), snapshot(state.state2, rm)]
     if t is InvertState:
@@ -398,11 +404,17 @@ def _half(x):
 
 def make_link(spec, datas):
     """spec = ((data a, name a), (data b, name b), func); func None = identity (LinkSame), "x2" = b is 2 * a."""
-    (da, na), (db, nb) = spec[0], spec[1]
     func = spec[2] if len(spec) > 2 else None
+    a, b = _end_cid(spec[0], datas), _end_cid(spec[1], datas)
     if func is None:
-        return LinkSame(datas[da].id[na], datas[db].id[nb])
-    return LinkTwoWay(datas[da].id[na], datas[db].id[nb], forwards=_double, backwards=_half)
+        return LinkSame(a, b)
+    return LinkTwoWay(a, b, forwards=_double, backwards=_half)
+
+
+def _end_cid(end, datas):
+    """(data index, component name) or (data index, pixel axis)."""
+    di, key = end
+    return datas[di].pixel_component_ids[key] if isinstance(key, int) else datas[di].id[key]
 
 
 def link_ends(spec):
@@ -419,8 +431,8 @@ def _thr(rng, kind):
 
 
 def numeric_refs(rng, model, di, allow_coord=True):
-    if model.restrict is not None:
-        return [["c", di, n] for n in model.restrict]
+    if model.restrict is not None:   # names, or ints meaning pixel axes
+        return [["p", di, n] if isinstance(n, int) else ["c", di, n] for n in model.restrict]
     refs = [["c", di, n] for n in model.names("float", "int", "pos")]
     if model.derived:
         refs.append(["c", di, "der"])
@@ -458,7 +470,7 @@ def gen_leaf(rng, models, di, kinds=None):
     if m.names("pos") and m.ndim >= 2:
         avail += ["flood", "flood"]
     if kinds:
-        avail = [a for a in avail if a in kinds] or avail
+        avail = [a for a in list(avail) + ["pixslice"] if a in kinds] or avail
     k = rng.choice(avail)
     nrefs = numeric_refs(rng, m, di)
     if k == "ineq":
@@ -493,6 +505,12 @@ def gen_leaf(rng, models, di, kinds=None):
             a = rng.randrange(0, s)
             sl.append([a, rng.randrange(a, s + 1), rng.choice([None, 1, 2])])
         return ["slice", di, sl]
+    if k == "pixslice":    # what the image viewer creates: one pixel fixed on some axes, everything on the others
+        sl = [[None, None, None] for _ in m.shape]
+        for a in rng.sample(range(m.ndim), rng.randint(1, m.ndim)):
+            x = rng.randrange(m.shape[a])
+            sl[a] = [x, x + 1, None]
+        return ["pixslice", di, sl]
     if k == "flood":
         return ["flood", di, ["c", di, rng.choice(m.names("pos"))], [rng.randrange(s) for s in m.shape],
                 rng.choice([1.0, 1.2, 1.6, 2.5, 6.0])]
@@ -673,6 +691,8 @@ def gen_node_mutation(rng, node, kind, models, di):
         return S("att", "ref", ["c", di, rng.choice(m.names("pos"))])
     if t is MaskSubsetState:
         return S("mask", "mask", [[rng.random() < 0.5 for _ in range(m.size)], list(m.shape)])
+    if t is PixelSubsetState:
+        return S("slices", "slices", gen_leaf(rng, models, di, ("pixslice",))[2])
     if t is SliceSubsetState:
         sl = []
         for s in m.shape:
